@@ -41,12 +41,13 @@ func init() {
 			}
 			gombokrun.Post(gombokrun.ModeJSON)(pc)
 		}
-		r.Rule += "; @fp.Json structs: scenario json-structs, leaf = one scratch package of up to " + fmt.Sprint(size) + " struct shapes of the C07 grammar (one-field over kind x visibility, json tag variants, field counts, generic constraint forms, grouped fields, every embedded form next to an ordinary field in both positions, three-field mixed structs, structs that declare one of the generated members by hand (incl. MarshalJSON, UnmarshalJSON, both); thorough: two-field structs), " +
+		r.Rule += "; @fp.Json structs: scenario json-structs, leaf = one scratch package of up to " + fmt.Sprint(size) + " struct shapes of the C07 grammar (one-field over kind x visibility, json tag variants, field counts, generic constraint forms, grouped fields, every embedded form next to an ordinary field in both positions, three-field mixed structs, structs that declare one of the generated members by hand (incl. MarshalJSON, UnmarshalJSON, both), slice / map / []byte fields whose values tell nil from empty-but-non-nil under tags with and without omitempty; thorough: two-field structs), " +
 			"declarations -> gombok from the tree under test -> go build with a generated law test -> run; for every struct all combinations of two faithful values per field: Marshal(x) = Marshal(x.AsMutable()) = Marshal(public twin with the documented tags) byte for byte, " +
 			"Unmarshal(Marshal(x)) = x on the encoded fields (json.Unmarshal and UnmarshalJSON called directly), a fixed list of malformed documents plus ill-typed values for every field never panic and leave a preloaded target unchanged on error; states = structs, transitions = law evaluations"
 		r.Assumptions = append(r.Assumptions,
 			"@fp.Json structs: omitempty is demanded on unnamed pointer/slice/map/interface/func/chan fields and Option fields, its absence on numeric/bool/array/struct/named non-nilable fields; for string fields (README shows omitempty, the statement says 'nilable') and named slice types the twin is compared on non-empty values only",
 			"@fp.Json structs: fields whose name starts with _ are not part of the Mutable type's encoding and are left out of the round trip; embedded fields, about whose tag the statement is silent, are compared through AsMutable() and through a hand-written literal of the generated Mutable type holding the same field values (law Marshal/Mutable-literal), not through the independent twin",
+			"@fp.Json structs: an empty but non-nil slice / map is dropped by omitempty, so its round trip (reflect.DeepEqual, which tells nil from empty) is demanded only under a json tag without omitempty; byte identity with AsMutable / the Mutable literal / the twin is demanded for every value",
 			"@fp.Json structs: every embedded form carries a non-zero value; the round trip is demanded of a struct value unless it holds a value that does not survive its own encoding (unexported content of an embedded unexported type, a non-nil value of a non-empty interface type) - census RoundTrip/skipped-value-not-faithfully-encodable",
 			"@fp.Json structs: a struct shape whose generated code does not compile, or on which gombok crashes, is C07's finding and is skipped here (census skipped-does-not-compile(C07), skipped-generator-crash(C07)); if the generated code compiles but the law test does not, because a member README documents for @fp.Value+@fp.Json is missing, that is reported as law/Json-members/<shape>",
 			"@fp.Json structs: for a struct target 'unchanged on error' is checked on the whole struct: the generated UnmarshalJSON decodes into a Mutable copy and assigns only on success",
